@@ -127,24 +127,32 @@ func checkSameExecutor(c *core.Ctx, rule string) {
 	for i, x := range ds {
 		name := []string{"DeliverTx", "CheckTx"}[i]
 		okFwd := false
+		notFwd := ""
 		for _, r := range core.Returns(x.fn) {
-			al, ok := loadOfAlloc(r.Results[0])
-			if !ok {
+			if r.Block() == x.fn.Recover {
 				continue
 			}
-			for _, ref := range *al.Referrers() {
-				fa, ok := ref.(*ssa.FieldAddr)
-				if !ok || fieldNameOf(fa) != "Code" {
-					continue
-				}
-				for _, fr := range *fa.Referrers() {
-					if st, ok := fr.(*ssa.Store); ok && st.Addr == fa && isCodeOf(st.Val, x.site.Value()) {
-						okFwd = true
+			this := false
+			if al, ok := loadOfAlloc(r.Results[0]); ok && core.Dominates(x.site.Instr, r) {
+				for _, ref := range *al.Referrers() {
+					fa, ok := ref.(*ssa.FieldAddr)
+					if !ok || fieldNameOf(fa) != "Code" {
+						continue
+					}
+					for _, fr := range *fa.Referrers() {
+						if st, ok := fr.(*ssa.Store); ok && st.Addr == fa && isCodeOf(st.Val, x.site.Value()) {
+							this = true
+						}
 					}
 				}
 			}
+			if this {
+				okFwd = true
+			} else if notFwd == "" {
+				notFwd = c.PosStr(r.Pos())
+			}
 		}
-		c.Check(okFwd, rule, name+"/code", x.fn.Pos(), "ABCI response code is the executor's response code", name+" does not forward the executor's response code")
+		c.Check(okFwd && notFwd == "", rule, name+"/code", x.fn.Pos(), "every ABCI response carries the executor's response code", name+" answers without running the executor, or does not forward the executor's response code (return at "+notFwd+"): the two modes can then disagree on a transaction")
 	}
 	// stateCheck always wraps stateDeliver: every function writing stateDeliver also writes
 	// stateCheck = NewCheckState(<same value>)
